@@ -130,7 +130,7 @@ def run(ctx):
     res = core.run_tlc("MC_C09", "MC_C09_%s.cfg" % ctx.tier, timeout=3400)
     core.tlc_must_pass(res, "MC_C09")
     ctx.add_tlc(res, "all histories of setters / weight scaling / reads up to the depth bound on rational curves, surfaces, volumes")
-    resb = core.run_tlc("MC_C09b", "MC_C09b_%s.cfg" % ctx.tier, timeout=3400)
+    resb = core.run_model(ctx, "MC_C09b", 3400, thorough_seeds=(2, 3, 5))
     core.tlc_must_pass(resb, "MC_C09b")
     ctx.add_tlc(resb, "pure conversions: helpers, type conversion, weighted grid")
     ctx.theorems = THEOREMS
